@@ -52,6 +52,18 @@ PROPS["C05"] = {
     "assumptions": COMMON_ASSUME + ["process-crash model as stated in the property", "for an interrupted clean only the newest segment's records are required to survive (C08/C09 judge cleaning precisely)"],
 }
 
+PROPS["C03"] = {
+    "engine": "h1",
+    "level": "exploration",
+    "budget": {"quick": 30, "thorough": 600},
+    "runs_per_proc": 150,
+    "technique": "deterministic simulation: appender, HW advancer, read-only toggler and committed readers as concurrently scheduled tasks with seeded preemption at every lock and wake-up; online invariants after every step plus bounded-liveness check at quiescence",
+    "level_text": "seeded exploration of interleavings of the real commitlog code: HW monotonicity checked after every scheduling step, every delivery checked against the HW and the model at the moment it is handed out, and after the last append every reader must have received exactly [start..HW] within 120 simulated seconds (a lost wake-up shows up as a stuck reader)",
+    "level_note": "preemption points are lock acquisitions, channel operations, selects, timers; memory races outside those are not explored",
+    "rule": "programs of <=36 (thorough <=66) operations split over four concurrent tasks; distinct = distinct event-log hash; non-trivial = at least one committed reader received >=3 messages and at least one preemption changed the running task",
+    "assumptions": COMMON_ASSUME + ["a committed reader created beyond the HW resumes at HW+1 as documented in newReaderCommitted (judged as such, see DESIGN.md C10 for the subscription-level consequence)"],
+}
+
 NOT_APPLICABLE = [
     {"property_id": pid, "reason": "check not built yet in this round (engine under construction); see DESIGN.md section 9 build order"}
     for pid in ["C%02d" % i for i in range(1, 20)] if pid not in PROPS
